@@ -223,8 +223,31 @@ def r08d(run):
     run.floor("R08d", "generator protocol calls in the wrappers", total, 4)
 
 
+def r08e(run):
+    """keyword binding (defaults, required, aliases) happens on every call: parse_data dominates the normal return"""
+    f = run.repo.func("utype.parser.func", "FunctionParser.parse_params")
+    fa = analysis(f)
+    pd = [n for n, c in fa.all_calls() if call_attr(c) == "parse_data"]
+    rets = [n for n in fa.cfg.nodes if n.kind == "stmt" and isinstance(n.ast, ast.Return) and fa.cfg.is_live(n)]
+    run.floor("R08e", "returns of parse_params", len(rets), 1)
+    for r in rets:
+        ok = any(fa.cfg.dominates(p, r) for p in pd)
+        run.check("R08e", f, f"`{norm_stmt(r.ast)[:50]}` is dominated by the keyword pass (parse_data)", ok,
+                  construct="return of parse_params without the keyword pass",
+                  message="parse_params can return without running parse_data for the keyword / omitted parameters",
+                  necessity="parse_data is the only place that fills Param(...) defaults and reports missing required "
+                            "parameters: f(a, *rest, k=Param(3)) called as f(1, 2) hands the body k=<Param object>",
+                  node=r.ast)
+    for p in pd:
+        extra = [b for b in fa.facts.branch_facts(p)]
+        run.check("R08e", f, "the keyword pass is unconditional", not extra, construct="conditional keyword pass",
+                  message="parse_params runs parse_data only under " + ", ".join(f"{unparse(b.test)}={b.polarity}" for b in extra),
+                  necessity="a count-based shortcut skips defaults and required checks for omitted keyword-only parameters",
+                  node=p.ast)
+
+
 def check(run):
-    run.rules_run += ["R08a", "R08b(R04e)", "R08c", "R08d"]
+    run.rules_run += ["R08a", "R08b(R04e)", "R08c", "R08d", "R08e"]
     run.explain("C08 (wrapper discipline; the binding arithmetic itself is not decidable statically): (R08a) every wrapper "
                 "kind creates a per-call context, resolves forward references before get_params, calls get_params with "
                 "identical arguments, parses the result channel exactly under parse_result, and wrap() dispatches each "
@@ -236,3 +259,4 @@ def check(run):
     c04.r04e(run, rule="R08b")
     r08c(run)
     r08d(run)
+    r08e(run)
